@@ -409,3 +409,255 @@ def project_mclmc(sc, run):
 
 def round_half_away(x):
     return math.floor(x + 0.5) if x >= 0 else -math.floor(-x + 0.5)
+
+
+# ------------------------------------------------------------------ storage (C14 / C15)
+IDENT = ("divergence_draw", "divergence_message", "transformation_update_id")
+CSV_STATS = {"lp__": "logp", "accept_stat__": "mean_tree_accept", "stepsize__": "step_size", "treedepth__": "depth",
+             "n_leapfrog__": "n_steps", "divergent__": "diverging", "energy__": "energy"}
+
+
+def name_hash(name):
+    return sum(name.encode()) % 5
+
+
+def cell_value(name, t, c, r, j, specials):
+    nh = name_hash(name)
+    if t in ("f64", "f32"):
+        if specials and j >= 1:
+            m = (r + j + nh) % 7
+            if m == 3:
+                return float("nan")
+            if m == 5:
+                return float("-inf")
+            if m == 6:
+                return float("inf")
+        return float(r * 64 + c * 8 + j) + nh * 0.125 + 0.125
+    if t == "i64":
+        return -(r * 1000 + c * 100 + j * 10 + nh) - 1
+    if t == "u64":
+        return r * 1000 + c * 100 + j * 10 + nh + 1
+    if t == "bool":
+        return (r + c + j + nh) % 2 == 0
+    if specials and (r + nh) % 3 == 0:
+        return ""
+    return "s%d_%d_%d_%d" % (c, r, j, nh)
+
+
+def canon(x, t):
+    if t in ("f64", "f32"):
+        return "nan" if math.isnan(x) else bits_from_f(x)
+    if t == "bool":
+        return "true" if x else "false"
+    return str(x)
+
+
+def csv_fmt(x, t, prec):
+    if t in ("f64", "f32"):
+        if math.isnan(x):
+            return "NA"
+        if math.isinf(x):
+            return "Inf" if x > 0 else "-Inf"
+        return "%.*f" % (prec, x)
+    if t == "bool":
+        return "1" if x else "0"
+    return str(x)
+
+
+def var_desc(v, is_stat):
+    name = v["name"]
+    kind = "plain"
+    if v["t"] == "bool":
+        if v["scalar"]:
+            kind = {"tuning": "bool_tuning", "diverging": "bool_div"}.get(name, "bool_parity") if is_stat else "bool_parity"
+        else:
+            kind = "boolvec"
+    elif v["t"] == "string":
+        kind = "string"
+    ev = (v.get("event") or "") if is_stat else ""
+    return {"name": name, "ev": ev, "ident": name in IDENT, "opt": bool(is_stat and not ev and not v["scalar"]),
+            "kind": kind, "nh": name_hash(name)}
+
+
+def decode_row(cells, v, t, n, c, maxr, specials, fmt=canon, flags=None):
+    """cells: list of canonical strings or None."""
+    if cells is None:
+        return -2
+    desc_kind = v["kind"]
+    if desc_kind in ("bool_tuning", "bool_div", "bool_parity"):
+        return 1000 + (1 if cells[0] in ("true", "1") else 0) if len(cells) == 1 else -1
+    if desc_kind == "boolvec":
+        for p in (0, 1):
+            if all(cells[j] == ("true" if (p + j) % 2 == 0 else "false") for j in range(len(cells))):
+                return 2000 + p
+        if all(x == "false" for x in cells):
+            return -2
+        return -1
+    if t in ("f64", "f32") and (all(x == "nan" for x in cells) or all(x == "0000000000000000" for x in cells)):
+        return -2
+    if t in ("i64", "u64") and all(x == "0" for x in cells):
+        return -2
+    if t == "string" and cells == [""]:
+        return -4
+    found = [r for r in range(maxr) if [fmt(cell_value(v["name"], t, c, r, j, specials), t) for j in range(n)] == list(cells)]
+    return found[0] if len(found) == 1 else -1
+
+
+def project_storage(d):
+    sc, res = d["scenario"], d["result"]
+    backend = sc["backend"]
+    specials = sc.get("specials", True)
+    prec = sc.get("precision", 6)
+    chains = sc["chains"]
+    out = [{"e": "reset", "chains": chains, "storeWarmup": sc.get("store_warmup", True),
+            "fullEvents": sc.get("full_events", True), "optVecs": sc.get("optvecs", True), "specials": specials,
+            "numTune": sc["num_tune"], "numDraws": sc["num_draws"]}]
+    if "events" not in res:
+        out.append({"e": "observe", "ok": False, "entries": [], "complete": False, "why": json.dumps(res)[:300]})
+        return out
+    stats = {v["name"]: v for v in res["stat_schema"]}
+    draws = {v["name"]: v for v in res["draw_schema"]}
+    maxr = sc["num_tune"] + sc["num_draws"] + 2
+    counts = [0] * chains
+    ev_counts = {}
+
+    def entries_of(view, final):
+        ents, seen = [], set()
+        for x in view or []:
+            if x.get("missing") or "error" in x:
+                continue
+            g = x["group"]
+            if backend == "csv":
+                hdr = x["header"]
+                c = x["chain"]
+                cols = {}
+                for k, h in enumerate(hdr):
+                    base = CSV_STATS.get(h)
+                    if base is not None:
+                        if base in stats:
+                            cols.setdefault(("stats", base), []).append((0, k))
+                    else:
+                        nm = h.split(".")[0]
+                        if nm in draws:
+                            idx = [int(p) - 1 for p in h.split(".")[1:]]
+                            shape = draws[nm]["shape"]
+                            flat = 0
+                            for a, sdim in zip(idx, shape):
+                                flat = flat * sdim + a
+                            cols.setdefault(("draws", nm), []).append((flat, k))
+                for (grp, nm), lst in cols.items():
+                    sch = stats[nm] if grp == "stats" else draws[nm]
+                    lst.sort()
+                    v = var_desc(sch, grp == "stats")
+                    rows = []
+                    for line in x["rows"]:
+                        cells = [line[k] if k < len(line) else "?" for _, k in lst]
+                        if len(lst) != sch["n"]:
+                            rows.append(-1)
+                            continue
+                        if v["kind"] == "string" and cells == [""]:
+                            rows.append(-4)
+                            continue
+                        if grp == "stats" and sch["name"] == "diverging":
+                            rows.append(1000 + (1 if cells[0] == "1" else 0))
+                            continue
+                        rows.append(decode_row(cells, v, sch["t"], sch["n"], c, maxr, specials,
+                                               fmt=lambda val, t: csv_fmt(val, t, prec)))
+                    ents.append({"layout": "csv", "chain": c, "phase": "all", "v": v, "rows": rows, "maxcount": 0})
+                    seen.add((grp, nm, c))
+                continue
+            nm = x["var"]
+            is_stat = g in ("stats", "sample_stats", "warmup_sample_stats")
+            sch = stats.get(nm) if is_stat else draws.get(nm)
+            if sch is None:
+                continue
+            if nm in ("draw", "chain") and backend != "arrow":
+                continue
+            c = x["chain"]
+            v = var_desc(sch, is_stat)
+            rows = [decode_row(r, v, sch["t"], sch["n"], c, maxr, specials) for r in x["rows"]]
+            phase = "all"
+            if backend == "hashmap":
+                layout = "compact_split"
+            elif backend == "arrow":
+                layout = "dense_nulls"
+            elif backend == "ndarray":
+                layout = "dense_fill"
+            else:
+                phase = "warm" if g.startswith("warmup") else "sample"
+                if v["ev"]:
+                    layout = "zarr_event_final" if final else "zarr_event"
+                else:
+                    layout = "zarr_plain"
+            ents.append({"layout": layout, "chain": c, "phase": phase, "v": v, "rows": rows,
+                         "maxcount": ev_counts.get((v["ev"], phase, v["name"]), 0)})
+            seen.add(("stats" if is_stat else "draws", nm, c, phase))
+        return ents, seen
+
+    def expected_keys():
+        keys = set()
+        for c in range(chains):
+            if backend == "csv":
+                for nm in CSV_STATS.values():
+                    if nm in stats:
+                        keys.add(("stats", nm, c))
+                for nm in draws:
+                    keys.add(("draws", nm, c))
+                continue
+            phases = ["warm", "sample"] if backend.startswith("zarr") else ["all"]
+            for ph in phases:
+                for nm in stats:
+                    if nm in ("draw", "chain") and backend != "arrow":
+                        continue
+                    keys.add(("stats", nm, c, ph))
+                for nm in draws:
+                    keys.add(("draws", nm, c, ph))
+        return keys
+
+    log = [[] for _ in range(chains)]
+    for e in res["events"]:
+        if e["e"] == "record":
+            out.append({"e": "record", "chain": e["chain"], "tuning": bool(e["tuning"]), "div": bool(e["div"]),
+                        "upd": bool(e["upd"]), "ok": bool(e["ok"]), "err": e.get("err") or ""})
+            if e["ok"]:
+                log[e["chain"]].append((bool(e["tuning"]), bool(e["div"]), bool(e["upd"])))
+        elif e["e"] == "flush":
+            out.append({"e": "flush", "ok": bool(e["ok"])})
+        elif e["e"] == "observe":
+            kind = e["kind"]
+            if "fail" in e:
+                out.append({"e": "observe", "ok": False, "entries": [], "complete": False, "why": e["fail"][:300], "kind": kind})
+                continue
+            final = kind == "finalize"
+            if final and backend.startswith("zarr"):
+                # size of event arrays after finalize: the largest event count over chains, per event and phase
+                full = sc.get("full_events", True)
+                for nm, sch in stats.items():
+                    evn = sch.get("event")
+                    if not evn:
+                        continue
+                    for ph in ("warm", "sample"):
+                        mx = 0
+                        for c in range(chains):
+                            n = 0
+                            for (t, dv, up) in log[c]:
+                                if (t if ph == "warm" else not t) and (dv if evn == "divergence" else up):
+                                    n += 1
+                            mx = max(mx, n)
+                        if ph == "warm" and not sc.get("store_warmup", True):
+                            mx = 0
+                        ev_counts[(evn, ph, nm)] = mx
+            if kind in ("flushed", "reader") and not backend.startswith("zarr"):
+                continue
+            if backend == "csv" and kind == "inspect":
+                continue   # CSV inspection has no result by design (files are complete after finalize)
+            if kind in ("flushed", "reader") or (backend.startswith("zarr") and kind == "inspect"):
+                ents, seen = entries_of(e["view"] if kind != "inspect" else e.get("reader"), False)
+                out.append({"e": "reader", "entries": ents, "complete": expected_keys() <= seen, "kind": kind})
+            else:
+                ents, seen = entries_of(e["view"], final)
+                out.append({"e": "observe", "ok": e.get("err") is None, "entries": ents,
+                            "complete": expected_keys() <= seen, "kind": kind, "why": e.get("err") or ""})
+    if res["status"] != "ok":
+        out.append({"e": "observe", "ok": False, "entries": [], "complete": False, "kind": "crash", "why": json.dumps(res["status"])[:300]})
+    return out
